@@ -13,6 +13,8 @@
 import GoldilocksVerif.Lemmas.ExtF
 import GoldilocksVerif.Lemmas.ExtIrred
 import GoldilocksVerif.Lemmas.ExtBatch
+import GoldilocksVerif.Lemmas.BridgeExt
+import GoldilocksVerif.Lemmas.BridgeExtBatch
 
 namespace GoldilocksVerif.C09
 open GoldilocksVerif Gen.Ext Model
@@ -156,6 +158,64 @@ theorem C09_batchInverse_eq_inv (src res : List E3) (h : g3batchInverse src = so
     (h1 : i < res.length) (h2 : i < src.length) (r : E3) (hr : g3inv src[i] = some r) : denE res[i] = denE r := by
   have hf := g3batchInverse_forall2 src res h
   exact K3.inv_unique _ _ _ (List.Forall₂.get hf h1 h2) ((g3inv_den _).2 r hr)
+
+/-! ## The same statements about the TRANSLATED inversion and division
+
+  `Gen.ExtInvGen.G3_inv___a3a3 / G3_inv___pp / G3_div` are regenerated from the C++ text of `Goldilocks3::inv` (both
+  overloads) and `Goldilocks3::div` on every run; they call the translated `Goldilocks::inv` (`none` = exit(-1), Euclid loop
+  bounded by `fuel`).  The statements hold for every fuel ≥ `invFuel` = 129.  An added special case in the C++ (a "fast
+  path") changes the generated definition and `G3_inv_gen_unfold` (Lemmas/BridgeExt.lean) no longer checks. -/
+
+/-- the translated inversion IS the hand model `g3inv` on the three coefficient words, written to result[0..2] -/
+theorem C09_generated_inv_eq_model (fuel : Nat) (hf : invFuel ≤ fuel) (result a : Region) :
+    Gen.ExtInvGen.G3_inv___a3a3 fuel result a = (g3inv (E3.ofRegion a)).map (put3 result) ∧
+    Gen.ExtInvGen.G3_inv___pp fuel result a = (g3inv (E3.ofRegion a)).map (put3 result) :=
+  ⟨G3_inv_gen_eq fuel hf result a, G3_inv_pp_gen_eq fuel hf result a⟩
+
+/-- translated inv: every non-zero element (any representation of the coefficients) is inverted, result · a = 1, and only
+    words 0,1,2 of the result region are written -/
+theorem C09_generated_inv (fuel : Nat) (hf : invFuel ≤ fuel) (result a : Region) (h : den3 a ≠ K3.zero) :
+    ∃ r, Gen.ExtInvGen.G3_inv___a3a3 fuel result a = some r ∧ Gen.ExtInvGen.G3_inv___pp fuel result a = some r ∧
+      K3.mul (den3 r) (den3 a) = K3.one ∧ ∀ k, 3 ≤ k → r k = result k := by
+  obtain ⟨h1, h2⟩ := G3_inv_gen_spec fuel hf result a
+  cases hi : Gen.ExtInvGen.G3_inv___a3a3 fuel result a with
+  | none => exact absurd (h1.mp hi) h
+  | some r =>
+    refine ⟨r, rfl, ?_, (h2 r hi).1, (h2 r hi).2⟩
+    rw [G3_inv_pp_gen_eq fuel hf, ← G3_inv_gen_eq fuel hf, hi]
+
+/-- translated inv: the process is ended exactly on the zero class -/
+theorem C09_generated_inv_refusal (fuel : Nat) (hf : invFuel ≤ fuel) (result a : Region) :
+    Gen.ExtInvGen.G3_inv___a3a3 fuel result a = none ↔ den3 a = K3.zero := (G3_inv_gen_spec fuel hf result a).1
+
+/-- translated div by a base element: refused exactly on the zero class of the divisor, otherwise result · b = a -/
+theorem C09_generated_div (fuel : Nat) (hf : invFuel ≤ fuel) (result a : Region) (b : BitVec 64) :
+    (Gen.ExtInvGen.G3_div fuel result a b = none ↔ den b = 0) ∧
+    (∀ r, Gen.ExtInvGen.G3_div fuel result a b = some r → K3.mul (den3 r) (K3.ofBase (den b)) = den3 a) :=
+  G3_div_gen_spec fuel hf result a b
+
+/-- translated `batchInverse(res, src, size)` (prefix products in a run-time sized stack array, one inversion, the descending
+    loop as a fuel-bounded fold, memcpy of `size` rows), proved DIRECTLY on the generated function: for every array length
+    1 ≤ size < 2^59, all regions, and every fuel ≥ 129 that exceeds size, the process is ended exactly when some src[i] is the
+    zero element (any representation of its coefficients); otherwise res[i] · src[i] = 1 for every i < size and nothing
+    beyond row size−1 of `res` is written.  Row i of a region = words 3i, 3i+1, 3i+2. -/
+theorem C09_generated_batchInverse (fuel : Nat) (res src : Region) (size : BitVec 64)
+    (h1 : 1 ≤ size.toNat) (hsz : size.toNat < 2 ^ 59) (hf : invFuel ≤ fuel) (hf2 : size.toNat < fuel) :
+    (Gen.ExtInvGen.G3_batchInverse fuel res src size = none ↔
+      ∃ i, i < size.toNat ∧ den3 (Region.shift src (3 * i)) = K3.zero) ∧
+    (∀ r, Gen.ExtInvGen.G3_batchInverse fuel res src size = some r →
+      (∀ i, i < size.toNat → K3.mul (den3 (Region.shift r (3 * i))) (den3 (Region.shift src (3 * i))) = K3.one) ∧
+      ∀ k, 3 * size.toNat ≤ k → r k = res k) :=
+  G3_batchInverse_gen_spec fuel res src size h1 hsz hf hf2
+
+/-- hence the translated batch inversion agrees element-wise, as field elements, with the translated single inversion -/
+theorem C09_generated_batchInverse_eq_inv (fuel : Nat) (res src r out a' : Region) (size : BitVec 64)
+    (h1 : 1 ≤ size.toNat) (hsz : size.toNat < 2 ^ 59) (hf : invFuel ≤ fuel) (hf2 : size.toNat < fuel)
+    (h : Gen.ExtInvGen.G3_batchInverse fuel res src size = some r) (i : Nat) (hi : i < size.toNat)
+    (hinv : Gen.ExtInvGen.G3_inv___a3a3 fuel out (Region.shift src (3 * i)) = some a') :
+    den3 (Region.shift r (3 * i)) = den3 a' :=
+  K3.inv_unique _ _ _ (((G3_batchInverse_gen_spec fuel res src size h1 hsz hf hf2).2 r h).1 i hi)
+    ((G3_inv_gen_spec fuel hf out _).2 a' hinv).1
 
 /-- non-vacuity: an element with non-canonical coefficients that is one -/
 example : den3 (Region.ofList [18446744069414584322#64, 18446744069414584321#64, 0#64]) = K3.one := by
